@@ -23,14 +23,16 @@ import (
 )
 
 type result struct {
-	H1      *obs        `json:"h1,omitempty"`
-	H2      *h2obs      `json:"h2,omitempty"`
-	Retry   *retryObs   `json:"retry,omitempty"`
-	H3      *h3obs      `json:"h3,omitempty"`
-	Queue   *queueObs   `json:"queue,omitempty"`
-	Win     *windowObs  `json:"window,omitempty"`
-	Share   *shareObs   `json:"share,omitempty"`
-	Backoff *backoffObs `json:"backoff,omitempty"`
+	H1       *obs         `json:"h1,omitempty"`
+	H2       *h2obs       `json:"h2,omitempty"`
+	Retry    *retryObs    `json:"retry,omitempty"`
+	H3       *h3obs       `json:"h3,omitempty"`
+	Queue    *queueObs    `json:"queue,omitempty"`
+	Win      *windowObs   `json:"window,omitempty"`
+	Share    *shareObs    `json:"share,omitempty"`
+	Backoff  *backoffObs  `json:"backoff,omitempty"`
+	TLSStall *tlsStallObs `json:"tlsstall,omitempty"`
+	Hpack    *hpackObs    `json:"hpack,omitempty"`
 }
 
 type job struct {
@@ -70,6 +72,7 @@ var h3specs = []h3spec{
 	{Name: "reuse-get", Reuse: true},
 	{Name: "reuse-upload-bodiless", Reuse: true, Upload: true, Bodiless: true},
 	{Name: "send-header-fails", Reuse: true, Upload: true, BadHost: true},
+	{Name: "stream-limit-wait-upload", Reuse: true, Upload: true, Bodiless: true, Limit: true},
 }
 
 var retrySpecs = []retrySpec{
@@ -101,6 +104,8 @@ func allJobs() []job {
 	add("window", 1)
 	add("share", 2)
 	add("backoff", 2)
+	add("tlsstall", 1)
+	add("hpack", 1)
 	return js
 }
 
@@ -255,6 +260,33 @@ func runJob(j job, seed uint64, quick bool) (out []result) {
 			sp.Follow = 60000
 			o := runWindow(sp)
 			out = append(out, result{Win: &o})
+		}
+	case "hpack":
+		// the context ends before the call, or while the n-th header field is being encoded
+		at := []int{0, 1, 3, 6}
+		if !quick {
+			at = []int{0, 1, 2, 3, 4, 5, 6, 7, 8}
+		}
+		for i, n := range at {
+			kind := []string{"cancel", "deadline"}[(i+int(seed))%2]
+			o := runHpack(hpackSpec{Name: fmt.Sprintf("cancel-at-field-%d", n), Kind: kind, AtHook: n})
+			out = append(out, result{Hpack: &o})
+		}
+	case "tlsstall":
+		k := 0
+		for _, h2 := range []bool{true, false} {
+			for _, fp := range []bool{false, true} {
+				kinds := []string{"cancel", "deadline"}
+				if quick { // both kinds over the four combinations, alternating
+					kinds = []string{kinds[(k+int(seed))%2]}
+				}
+				k++
+				for _, kind := range kinds {
+					name := map[bool]string{true: "h2", false: "h1"}[h2] + map[bool]string{true: "-fingerprint", false: "-stdtls"}[fp]
+					o := runTLSStall(tlsStallSpec{Name: name, ForceH2: h2, Fingerprint: fp, Kind: kind})
+					out = append(out, result{TLSStall: &o})
+				}
+			}
 		}
 	case "backoff":
 		kind := []string{"cancel", "deadline"}[j.Idx]
@@ -430,6 +462,10 @@ func runC08(r *hk.Run) {
 				recordShare(r, *x.Share)
 			case x.Backoff != nil:
 				recordBackoff(r, *x.Backoff)
+			case x.TLSStall != nil:
+				recordTLSStall(r, *x.TLSStall)
+			case x.Hpack != nil:
+				recordHpack(r, *x.Hpack)
 			}
 		}
 	}
